@@ -179,11 +179,12 @@ func genCase(r *rand.Rand, idx int) caseSpec {
 		cs.Reopen = "restart"
 	}
 	if cs.Forced == "inflight" {
-		// exactly one request in flight, on a key the trigger does not address
+		// exactly one request in flight, on a key that was never written before: the racer is held
+		// under its record guard, and a record that already sits in the write buffer would make the
+		// write tick wait for that guard while holding the mutex the close listener needs (a mutex
+		// wait freezes virtual time, see BUILDING.md)
 		w := cs.Writers[0]
-		if cs.Scen == "autodestroy" {
-			w.Key = keyFor(w.Kind, 5+r.IntN(3))
-		}
+		w.Key = keyFor(w.Kind, 5+r.IntN(3))
 		cs.Writers = []opSpec{w}
 		cs.TickK = 0
 	}
